@@ -34,6 +34,7 @@ fn main() {
         "cache_seq" => e_cache::run_seq(&args, &mut rep),
         "cache_fault" => e_cache::run_fault(&args, &mut rep),
         "cache_conc" => e_cache::run_conc(&args, &mut rep),
+        "cache_enum" => e_cache::run_enum(&args, &mut rep),
         other => {
             eprintln!("unknown engine {other:?}");
             std::process::exit(2);
